@@ -18,7 +18,7 @@ import (
 type c06Case struct {
 	Name string `json:"name,omitempty"` // scaled family member (key) or ""
 	Src  string `json:"src"`
-	File int    `json:"file"` // 0: in-memory API; k>0: file API delivering k bytes per read (1<<30: all at once)
+	File int    `json:"file"` // 0: in-memory API; k>0: file API delivering k bytes per read (1<<30: all at once); k<0: -k bytes per read, the last read returns its data together with io.EOF
 }
 
 func (c *c06Case) Key() string {
@@ -69,6 +69,13 @@ func c06Exec(cs fw.Case) *fw.Fail {
 			var t c06Target
 			var out, log bytes.Buffer
 			uerr := bcl.Unmarshal([]byte(c.Src), &t, bcl.OptOutput(&out), bcl.OptLogger(&log))
+			// a slice target that already holds an element (of a type the blocks may or may not fit)
+			if strings.Contains(c.Src, "bind") {
+				ts := []c06Target{{Name: "old"}}
+				bcl.Unmarshal([]byte(c.Src), &ts, bcl.OptOutput(&out), bcl.OptLogger(&log))
+				ta := make([]struct{ X, I int }, 1, 1)
+				bcl.Unmarshal([]byte(c.Src), &ta, bcl.OptOutput(&out), bcl.OptLogger(&log))
+			}
 			if r.Err != nil && uerr == nil {
 				return fw.Failf("Unmarshal reports the error Interpret reports", "Interpret err=%v, Unmarshal nil", r.Err)
 			}
@@ -90,10 +97,17 @@ func c06Exec(cs fw.Case) *fw.Fail {
 	return fw.Guard(func() *fw.Fail {
 		mk := func() *impl.ScriptFile {
 			var script []impl.Answer
-			if c.File < 1<<30 {
-				for n := 0; n < len(c.Src); n += c.File {
-					script = append(script, impl.Answer{N: c.File})
+			k := c.File
+			if k < 0 {
+				k = -k
+			}
+			if k < 1<<30 {
+				for n := 0; n < len(c.Src); n += k {
+					script = append(script, impl.Answer{N: k})
 				}
+			}
+			if c.File < 0 && len(script) > 0 {
+				script[len(script)-1].Err = "EOF"
 			}
 			return impl.NewScriptFile(c.Src, script)
 		}
@@ -173,7 +187,7 @@ func init() {
 			"(d) scaled programs just below/at/above each implementation limit. Each through Parse+Interpret+Unmarshal under recover, (c),(d) and the short part of (a),(b) also through ParseFile/InterpretFile/UnmarshalFile in a worker process whose death is attributed to the input in flight. " +
 			"Invariant oracle: returns, no panic, process alive, result or error. distinct_nontrivial = distinct inputs executed.",
 		Subs:           []*fw.Sub{subC06},
-		BudgetQuick:    100,
+		BudgetQuick:    170,
 		BudgetThorough: 1800,
 		Assumptions: []string{"inputs whose legitimate result needs more than 2^20 bytes of repeated string are excluded (decided by the reference model), as the property states",
 			"hang = no return within the 60 s watchdog (cases take < 1 ms)"},
@@ -205,6 +219,8 @@ func init() {
 			for _, src := range gen.Small() {
 				do(src, 1)
 				do(src, 3)
+				do(src, -4)
+				do(src, -7)
 			}
 			// (a) byte strings
 			maxB, maxT, fileLen := 4, 3, 2
@@ -222,6 +238,7 @@ func init() {
 						if n <= fileLen {
 							do(src, 1<<30)
 							do(src, 2)
+							do(src, -2)
 						}
 						return do(src, 0)
 					})
